@@ -93,27 +93,36 @@ Print Assumptions C02_quote_variable_roundtrip.
 Example C02_refuted_operator_tail :
   excl_C02 pa = true /\ print_path CL pa = "(1 * 2.abs() + 3)"%string /\ rt pa = PErr (ELex ENumJunk).
 Proof. exact C02_refuted_a. Qed.
+Print Assumptions C02_refuted_operator_tail.
 Example C02_refuted_operator_tail_other_tree :
   excl_C02 pa' = true /\
   rt pa' = POk (mkpath true false [SBin BAdd [SUn UMinus [SConst CRoot; SKey "a"; SKey "b"]] [SInteger 1]]).
 Proof. exact C02_refuted_a'. Qed.
+Print Assumptions C02_refuted_operator_tail_other_tree.
 Example C02_refuted_not_tail : excl_C02 pa'' = true /\ rt pa'' = PErr ESyntax.
 Proof. exact C02_refuted_a''. Qed.
+Print Assumptions C02_refuted_not_tail.
 Example C02_refuted_integral_numeric :
   excl_C02 pb = true /\ print_path CL pb = "4"%string /\ rt pb = POk (mkpath true false [SInteger 4]).
 Proof. exact C02_refuted_b. Qed.
+Print Assumptions C02_refuted_integral_numeric.
 Example C02_refuted_integral_numeric_range :
   excl_C02 pb' = true /\ print_path CL pb' = "100000000000000000000"%string /\ rt pb' = PErr EIntParse.
 Proof. exact C02_refuted_b'. Qed.
+Print Assumptions C02_refuted_integral_numeric_range.
 
 (* non-vacuity *)
 Example C02_samples : map rt sample_paths = map POk sample_paths.
 Proof. exact C02_sample_trees. Qed.
+Print Assumptions C02_samples.
 
 (* the printer's tables are the ones in /repo *)
 Example C02_priorities_match_source : model_binary_priority = binary_priority.
 Proof. vm_compute. reflexivity. Qed.
+Print Assumptions C02_priorities_match_source.
 Example C02_unary_priorities_match_source : model_unary_priority = unary_priority.
 Proof. vm_compute. reflexivity. Qed.
+Print Assumptions C02_unary_priorities_match_source.
 Example C02_op_names_match_source : model_op_names = op_names.
 Proof. vm_compute. reflexivity. Qed.
+Print Assumptions C02_op_names_match_source.
